@@ -1,7 +1,9 @@
 SPECIFICATION Spec
 CONSTANTS MaxLen = 2
   Vocabulary <- SmallElements
+  Contexts <- InitsQuick
 INVARIANT OpEqDen
+INVARIANT IncomingKept
 INVARIANT AffixOnce
 INVARIANT PendingOnce
 PROPERTY NameStable
